@@ -162,7 +162,8 @@ def _apply_list(node, model, op, idx, idx2, val, mval):
             except (IndexError, ValueError, TypeError, KeyError):
                 pass
             model[:] = [_plain(x) for x in list.__iter__(node)]
-    except (IndexError, ValueError, TypeError) as e:
+    except Exception as e:          # any exception class: compared with the builtin's below
+        reraise_internal(e)
         ie = type(e)
     return ie, me, ir, mr
 
@@ -283,7 +284,8 @@ def _apply_dict(node, model, op, key, key2, val, mval):
             ir = node[key]
         elif op == 'rename_child':
             node.ayns.rename_child(key, key2)
-    except (KeyError, ValueError, AttributeError) as e:
+    except Exception as e:
+        reraise_internal(e)
         ie = KeyError if isinstance(e, (KeyError, AttributeError)) else type(e)
     return ie, me, ir, mr
 
